@@ -169,14 +169,34 @@ class DictKeysRaise(dict):
         raise RuntimeError('backend down (getitem)')
 
 
-HOSTILE = {'dict_len_raises': lambda: DictLenRaises(a=1), 'dict_keys_raise': lambda: DictKeysRaise(a=1, b=2),
+class ClassPropRaises:
+    """`obj.__class__` is a property that raises (type(obj) is fine)"""
+    @property
+    def __class__(self):
+        raise RuntimeError('no class for you')
+
+
+class Proxy:
+    """a proxy: `obj.__class__` says int, type(obj) says Proxy"""
+    __class__ = property(lambda self: int)
+
+
+class GetattrRuntimeDict:
+    """has a __dict__; every attribute that is missing raises RuntimeError"""
+
+    def __getattr__(self, name):
+        raise RuntimeError('getattr ' + name)
+
+
+HOSTILE = {'class_prop_raises': ClassPropRaises, 'proxy': Proxy, 'getattr_runtime': GetattrRuntimeDict,
+           'dict_len_raises': lambda: DictLenRaises(a=1), 'dict_keys_raise': lambda: DictKeysRaise(a=1, b=2),
            'slots_getattr': SlotsGetattrRuntime, 'getattribute': GetattributeRuntime, 'imposter_list': ImposterList,
            'len_raises_list': lambda: _LenRaisesList([1, 2]), 'args_raises': ArgsRaises,
            'args_not_iterable': ArgsNotIterable, 'dict_prop_raises': DictPropRaises, 'dict_not_mapping': DictNotMapping}
 OUTSIDE = {'str_base_exception': StrBaseException}      # outside the claimed domain (BaseException from __str__)
 KIT_CLASSES = (Plain, Priv, Slotted, StrRaises, ReprRaises, LenRaises, GetattrAttrError, EqRaises, MyList, MyDict,
                MyError, SlotsGetattrRuntime, GetattributeRuntime, ImposterList, _LenRaisesList, ArgsRaises,
-               ArgsNotIterable, DictPropRaises, DictNotMapping, StrBaseException, DictLenRaises, DictKeysRaise)
+               ArgsNotIterable, DictPropRaises, DictNotMapping, StrBaseException, DictLenRaises, DictKeysRaise, ClassPropRaises, Proxy, GetattrRuntimeDict)
 
 
 def _gen():
@@ -357,6 +377,8 @@ def describe_heap(roots):
         # then sees "raises") disagrees
         d = {'ty': t.__name__, 'tyrepr': str(t), 'dict': t is dict,
              'str': None if t in (dict, list, tuple, set, frozenset) else safe_text(o), 'ph': placeholder(o)}
+        ok, v = probe(lambda: o.__class__.__name__)
+        d['cls'] = v if ok and isinstance(v, str) else {'raises': v if not ok else 'not text'}
         ok, v = probe(lambda: len(o))
         d['len'] = v if ok and isinstance(v, int) else {'raises': v if not ok else 'not an int'}
         d['items'] = [[*key_text(k), idx(o[k])] for k in list(o.keys())] if t is dict else []
@@ -879,6 +901,8 @@ def fix_heap(o):
     d = dict(o)
     for k in ('str', 'ph', 'ty', 'tyrepr'):
         d[k] = fix_text(d[k])
+    if isinstance(d.get('cls'), str):
+        d['cls'] = fix_text(d['cls'])
     d['items'] = [[fix_text(a), b, c] for a, b, c in d['items']]
     if isinstance(d['attrs'], list):
         d['attrs'] = [[fix_text(a), b, c] for a, b, c in d['attrs']]
@@ -1276,10 +1300,17 @@ def gen_case(rng, lim=None, nobj=None, hostile=0.0, outside=False, nactions=1, s
     names = [x for x in NAMES if x != 'self']
     rng.shuffle(names)
     locs = []
+    used_self = False
     for j in idxs:
         nm = names.pop()
-        if nm == 'data' and rng.random() < 0.3 and specs[j]['t'] not in ('hostile', 'outside'):
+        if nm == 'data' and rng.random() < 0.3 and specs[j]['t'] != 'outside':
             nm = 'self'
+        elif specs[j]['t'] == 'hostile' and not used_self and rng.random() < 0.5:
+            nm = rng.choice(['self', 'self', 'cls'])      # `_process_frame` reads the class of the local called self
+        if nm in ('self', 'cls'):
+            if used_self:
+                nm = nm + '_%d' % j
+            used_self = True
         locs.append([nm, j])
     rng.shuffle(locs)
     case = {'objs': specs, 'locals': locs, 'frame_type': frame_type, 'stream': stream, 'actions': []}
@@ -1593,6 +1624,18 @@ def judge_total(case, obs, live):
                 if strip(alone[0]) != strip(s):
                     v.append(f'tp{i}: its snapshot differs from the one it produces alone: '
                              f'{core.canon(strip(s))[:300]} vs alone {core.canon(strip(alone[0]))[:300]}')
+    if not case.get('recursion'):
+        for s in obs.get('snapshots', []):
+            for fi in range(min(len(live['frames_locals']), len(s['frames']))):
+                me = live['frames_locals'][fi].get('self')
+                want = None
+                if me is not None:
+                    try:
+                        want = me.__class__.__name__
+                    except Exception:
+                        want = None
+                if s['frame_classes'][fi] != want:
+                    v.append(f'{s["tp"]}: frame {fi} reports class {s["frame_classes"][fi]!r}; its `self` says {want!r}')
     if case.get('recursion'):
         for s in obs.get('snapshots', []):
             if s['frame_funcs'][:3] != ['walk', 'walk', 'walk'] or s['frame_classes'][:4] != ['Alpha', 'Beta', 'Alpha', None]:
